@@ -11,4 +11,6 @@ OBLIGATIONS = [
        'N<=3 nodes with arbitrary real coordinates (quick), N<=4 (thorough); tree built by the real create_tree incl. libstdc++ nth_element', cases_thorough=[(1, 0), (2, 0), (3, 0), (4, 0), (2, 1), (3, 1), (4, 1)], time_cap=270),
     ob('C19.bezier0', 'h_c19_bezier_ends', [(1,), (2,)], ['curve segment starts at its coordinate', 'curve segment ends at the next coordinate', 'end'], '1..2 curve segments, arbitrary control points'),
     ob('C19.gc', 'h_c19_great_circle', [()], ['same-depth distance is the great-circle distance r*acos(p1.p2/r^2), also beyond 90 degrees', 'end'], 'all pairs of points on the sphere, r>0', libm_axioms=False, stubs=['sin/cos/acos purely uninterpreted (no axioms): the comparison is structural']),
+    ob('C19.roundtrip', 'h_c19_roundtrip', [()], ['the radius is the Euclidean norm', 'longitude lies in [-pi,pi], latitude in [-pi/2,pi/2]', 'Cartesian -> spherical -> Cartesian returns the point', 'end'], 'all points off the centre; exact reals', libm_inverse=True, native=True,
+       stubs=['acos/atan2/sin/cos/sqrt uninterpreted; inverse-function contracts: cos(acos t)=t, sin(acos t)>=0 with sin^2=1-t^2, h cos(atan2(y,x))=x, h sin(atan2(y,x))=y (h=sqrt(x^2+y^2)); range contracts of acos and atan2'], outside=['the other direction (spherical -> Cartesian -> spherical needs acos(cos x)=x on [0,pi] and atan2 of scaled sin/cos: not encoded)', 'rounding']),
 ] + [dict(o, id=o['id'].replace('C04.', 'C19.')) for o in C04.OBLIGATIONS if o['id'] in ('C04.poly3', 'C04.poly4', 'C04.edge')]
